@@ -50,6 +50,11 @@ def _chunk(chunk):
     return [liferun.replay_transition(t) for t in chunk]
 
 
+def _chunk_same_names(chunk):
+    import liferun
+    return [liferun.replay_transition(t, same_names=True) for t in chunk]
+
+
 def run(pid: str, tier: str) -> dict:
     plan = PLANS[pid]
     trans, info = transitions(plan["profile"], plan[tier])
@@ -62,10 +67,17 @@ def run(pid: str, tier: str) -> dict:
     ctx = mp.get_context("spawn")
     with ctx.Pool(n) as pool:
         res = pool.map(_chunk, chunks)
+        res2 = pool.map(_chunk_same_names, chunks) if pid == "C19" else []
     findings = [None] * len(trans)
     for ci, r in enumerate(res):
         for j, f in enumerate(r):
             findings[ci + j * len(chunks)] = f
+    # C19 once more with every element of a kind carrying the same name (names are labels): outcome classes only
+    for ci, r in enumerate(res2):
+        for j, f in enumerate(r):
+            g = findings[ci + j * len(chunks)]
+            g["c19"] += [[x[0] + " (elements of a kind share one name)"] + x[1:] for x in f["c19"]]
+            g["crash"] += [[x[0] + " (elements of a kind share one name)"] + x[1:] for x in f["crash"]]
     viol, drift, dyn = [], [], []
     for t, f in zip(trans, findings):
         for item in f[plan["key"]] + f["crash"]:
